@@ -437,6 +437,8 @@ class TreeRun(object):
                     sec.transact(q)
             return True
         if kind == "rebalance":
+            if not self.conditioned(ms):
+                return False  # rebalance sizes by the child's current weight, which is meaningless when the strategy's value is a rounding residue
             w = op[3]
             base = None
             if len(op) > 4 and op[4] is not None:
